@@ -825,7 +825,7 @@ def c14(ctx, rep):
     sub = Report("C18", quiet=True)
     c18(ctx, sub, with_k3=False)
     for o in sub.obligations:
-        if o["clause"] in ("C18.valid-alphabet", "C18.validated-before-tables", "C18.validated-before-indexing", "C18.refusal", "C18.raises-valueerror-only", "C18.extra-total", "C18.alpha-num-inverse", "C18.gap-decode-guard", "C18.decode-prelude", "C18.decode-chain", "C18.decode-result", "C18.encode-prefix", "C18.table-read-guarded", "C18.encoder-total"):
+        if o["clause"] in ("C18.valid-alphabet", "C18.validated-before-tables", "C18.validated-before-indexing", "C18.refusal", "C18.raises-valueerror-only", "C18.extra-total", "C18.alpha-num-inverse", "C18.gap-decode-guard", "C18.decode-prelude", "C18.decode-chain", "C18.decode-groups-complete", "C18.decode-result", "C18.encode-prefix", "C18.table-read-guarded", "C18.encoder-total"):
             rep.ob("C14.K3." + o["clause"].split(".", 1)[1], o["construct"], o["ok"], o["detail"], o["where"], o.get("witness"), key="C14.K3.%s|%s" % (o["clause"].split(".", 1)[1], o["construct"]))
     # the AS map is read with every number the pattern can match (same list), parent directories exist before the output is opened
     from .checks_pipe import import_clauses, c16 as _c16
@@ -1462,6 +1462,19 @@ def _codec_structure(ctx, rep, NUM_ALPHA, EXTRA, ENCODING, fixedc):
                             pprev = [n for n, (pre, posts) in il.carried.items() if posts and all(x == cur for x in posts)]
                             inner_ok = bool(pprev) and gcall[2][0] == ("carried", pprev[0], il.uid)
         rep.ob("C18.decode-chain", "juniper_decrypt", inner_ok, "each gap is measured against the previous consumed character, prev advancing over every character", W(f_dec, wl.node), key="C18.decode-chain|juniper_decrypt")
+        # every turn of the group loop either refuses (raise) or decodes a whole group: a break/continue/return that leaves
+        # a partial or skipped group behind makes two different strings decode to one plaintext (decoder not injective)
+        for bp in wl.body_paths:
+            if not bp.feasible():
+                continue
+            rk = bp.result[0] if bp.result is not None else None
+            if rk == "raise":
+                continue
+            decodes = any(e.kind == "call" and M.callee_name(e.a) == "_gap_decode" for e, ls in walk_effects(bp.effects))
+            ok_turn = rk is None and decodes
+            rep.ob("C18.decode-groups-complete", "juniper_decrypt", ok_turn,
+                   "a turn of the group loop ends with %s%s; expected: refuse with an exception or decode the whole group and go on (a string cut inside a group must not decode to the plaintext of its prefix)" % (rk or "fall-through", "" if decodes else " without decoding the group"),
+                   W(f_dec, bp.result[2] if bp.result is not None else wl.node), key="C18.decode-groups-complete|juniper_decrypt")
     rep.ob("C18.refusal", "juniper_decrypt", refuse_ok, "an empty or VALID-failing string is refused with ValueError before any table access", W(f_dec), key="C18.refusal|juniper_decrypt")
     rep.ob("C18.decode-paths", "juniper_decrypt", n_ret >= 1, "decoding paths: %d" % n_ret, W(f_dec), nontrivial=False)
     # encoder
